@@ -12,20 +12,38 @@ from .runner import REPO, VERIF, GroupFailed, engine_mod, read_group, repo_tree_
 HASHSEEDS = [0, 1, 7, 1234]
 
 # per property: engine, run counts, per-run wall limit
+_HIST_NOTE = ("trusted: the 150-line Python evaluator of the spec language (differentially self-checked against Z3 at "
+              "start-up) and, for the post-hoc alphabet filter only, claripy's AST->Z3 translation; Z3's determinism; "
+              "bit-vector widths <= 8 (<= 12 bits of variables per run); sampling, not proof")
+_HIST_RULE = ("one case = one seeded operation history (configuration + explicit op list) executed against real claripy + "
+              "Z3 with the reference-model oracle after every operation; distinct = distinct digest of the executed "
+              "(op, answer) trace; non-trivial = at least one add and at least two checked solver queries")
+
+
+def _hist(quick, thorough, what, profile=None, **kw):
+    d = {"engine": "history", "quick": quick, "thorough": thorough, "limit_s": 90, "rule": _HIST_RULE + "; " + what,
+         "level_text": "seeded exploration of operation histories with an exact reference-model oracle checked after "
+                       "every operation; " + what + "; violations are minimised and replayed in a pristine process "
+                       "before being reported",
+         "level_note": _HIST_NOTE, "opts": {"profile": profile} if profile else {}}
+    d.update(kw)
+    return d
+
+
 PROPS = {
-    "C11": {"engine": "history", "quick": 3000, "thorough": 150000, "limit_s": 60,
-            "rule": "one case = one seeded operation history (config + ops) on Solver/SolverCacheless executed against "
-                    "real claripy+Z3 with the enumeration oracle after every op; distinct = distinct digest of the "
-                    "executed (op, answer) trace; non-trivial = at least one add and at least two solver queries "
-                    "were executed and checked",
-            "level_text": "seeded exploration of operation histories (add/sat/eval/batch_eval/min/max/solution/is_true/"
-                          "simplify/downsize/branch + cache evictions, reuse on/off) on Solver and SolverCacheless with "
-                          "an exact enumeration oracle after every operation; violations are minimised and replayed in a "
-                          "pristine process before being reported",
-            "level_note": "trusted: the 150-line Python evaluator of the spec language (differentially self-checked against "
-                          "Z3 at start-up), Z3's determinism; widths <= 8 bits; sampling, not proof",
-            "design_ref": "DESIGN.md 5 C11"},
+    "C10": _hist(3000, 60000, "histories interleave solver-relative is_true/is_false on several frontends with "
+                 "module-level/method truth checks on the same expression objects, cache clears and evictions; a True "
+                 "claim must hold on all models (solver) or all assignments (module level)", design_ref="DESIGN.md 5 C10"),
+    "C11": _hist(4000, 150000, "frontends Solver and SolverCacheless; ops add/sat/eval/batch_eval/min/max/solution/"
+                 "is_true/simplify/downsize/branch plus weak-cache and LRU evictions, solver reuse on/off",
+                 design_ref="DESIGN.md 5 C11"),
+    "C12": _hist(3000, 100000, "SolverComposite with variable shapes whose constraints connect and disconnect child "
+                 "solvers; branch (copy-on-write), simplify, split, combine, merge", design_ref="DESIGN.md 5 C12"),
+    "C14": _hist(3000, 80000, "trees of branched solvers of every exact frontend class, strictly interleaved ops, and "
+                 "probe sweeps over the untouched handles after every mutating op", design_ref="DESIGN.md 5 C14"),
 }
+for _p in PROPS.values():
+    _p.setdefault("design_ref", "DESIGN.md 5")
 
 
 def default_seed(tier):
